@@ -195,6 +195,14 @@ fn locks_run(a: &[&str]) -> String {
 /// `fee_run <P> <limit> <loan> <Pf> <flimit> <usd> <ssp> <asp> <tipkind 0|1|2> <tipval> <credit> <ops...>`
 /// (prices and amounts in attos). ops: `LOCK <amount> <contingent 0|1>`, `EXEC <units>`, `FIN <units>`,
 /// `STOR <0 state|1 archive> <size>`, `BAL`, `FINALIZE` (must be last). Each op prints one token group.
+fn royalty_recipient(kind: &str, vault: &str) -> RoyaltyRecipient {
+    if kind == "0" {
+        RoyaltyRecipient::Package(radix_common::constants::PACKAGE_PACKAGE, node(vault))
+    } else {
+        RoyaltyRecipient::Component(radix_common::constants::FAUCET, node(vault))
+    }
+}
+
 fn fee_run(a: &[&str]) -> String {
     let cp = CostingParameters {
         execution_cost_unit_price: dec(a[0]),
@@ -258,6 +266,46 @@ fn fee_run(a: &[&str]) -> String {
             "BAL" => {
                 out.push(format!("{}", r.fee_balance().attos()));
                 i += 1;
+            }
+            "ROY" => {
+                // ROY <0 free|1 xrd|2 usd> <amount attos> <recipient kind 0 package|1 component> <vault id>
+                use radix_common::types::RoyaltyAmount;
+                let amt = match a[i + 1] {
+                    "0" => RoyaltyAmount::Free,
+                    "1" => RoyaltyAmount::Xrd(dec(a[i + 2])),
+                    _ => RoyaltyAmount::Usd(dec(a[i + 2])),
+                };
+                out.push(match r.consume_royalty(amt, royalty_recipient(a[i + 3], a[i + 4])) {
+                    Ok(()) => "ok".into(),
+                    Err(FeeReserveError::InsufficientBalance { .. }) => "insufficient".into(),
+                    Err(FeeReserveError::Overflow) => "overflow".into(),
+                    Err(_) => "err".into(),
+                });
+                i += 5;
+            }
+            "REVERT_ROYALTY" => {
+                r.revert_royalty();
+                out.push("ok".into());
+                i += 1;
+            }
+            "ROYSTATE" => {
+                // ROYSTATE <recipient kind> <vault id> -> <balance> <committed royalty> <entries> <sum of entries> <entry of the recipient>
+                let who = royalty_recipient(a[i + 1], a[i + 2]);
+                let (s, _, _) = r.clone().finalize();
+                let mut sum = Decimal::ZERO;
+                for (_, v) in r.royalty_cost_breakdown().iter() {
+                    sum = sum.checked_add(*v).unwrap();
+                }
+                let mine = r.royalty_cost_breakdown().get(&who).cloned().unwrap_or(Decimal::ZERO);
+                out.push(format!(
+                    "{} {} {} {} {}",
+                    r.fee_balance().attos(),
+                    s.total_royalty_cost_in_xrd.attos(),
+                    r.royalty_cost_breakdown().len(),
+                    sum.attos(),
+                    mine.attos()
+                ));
+                i += 3;
             }
             "DEFER_EXEC" => {
                 out.push(match r.consume_deferred_execution(a[i + 1].parse().unwrap()) {
